@@ -21,7 +21,7 @@ func init() { register(c06{}) }
 
 func (c06) ID() string { return "C06" }
 func (c06) Rule() string {
-	return "values: every location of gen.Universe(L<=6,arity<=3) and seeded locations built with the public constructors (Join/Order/.Complement/PartialRange; depth<=3, 1..5 parts, incl. abutting, duplicate, overlapping and single-base parts): AsLocation(v.String()) must succeed, print identically and have equal atoms (residues, sites, strand, ambiguity) and open-end markers. strings: printed values, the legacy trailing '>' spelling, 1-3 character mutations of printed values, and random strings over the location alphabet: for every accepted string print(parse(s)) must be a fixed point of parse-then-print. text: expressions assembled by the harness over pairwise separated leaves (points, between-sites, partial ranges, ambiguous spans; join/order/complement nested up to depth 3, members in any order): AsLocation(text) must denote exactly what the expression says (the model reads it off a literal value no library constructor touched): same residues, sites, strands, order, open-end markers, join vs order; and its print must read back to the same. reduction: for raw part lists P (abutting, duplicate, single-base, zero-length, complemented members) Join(P...) and Order(P...) must denote the same set of residues in the same order of first occurrence, on the same strands, as the concatenation of the members. non-trivial: a list location, a partial end, or a string that is not a printed value; distinct: canonical case text. Every harness-written location text is also read from the location column of a GenBank record: on one line / continued behind each comma, LF / CRLF, the record delivered whole / byte by byte / with a 4096-byte read boundary at every offset of the text; each spelling must denote what the text denotes. The text stands in the first or in a later feature of the table. Member lists end in runs of complemented members (also behind joins); Join of one literal join prints like Join of its members."
+	return "values: every location of gen.Universe(L<=6,arity<=3) and seeded locations built with the public constructors (Join/Order/.Complement/PartialRange; depth<=3, 1..5 parts, incl. abutting, duplicate, overlapping and single-base parts): AsLocation(v.String()) must succeed, print identically and have equal atoms (residues, sites, strand, ambiguity) and open-end markers. strings: printed values, the legacy trailing '>' spelling, 1-3 character mutations of printed values, and random strings over the location alphabet: for every accepted string print(parse(s)) must be a fixed point of parse-then-print. text: expressions assembled by the harness over pairwise separated leaves (points, between-sites, partial ranges, ambiguous spans; join/order/complement nested up to depth 3, members in any order): AsLocation(text) must denote exactly what the expression says (the model reads it off a literal value no library constructor touched): same residues, sites, strands, order, open-end markers, join vs order; and its print must read back to the same. reduction: for raw part lists P (abutting, duplicate, single-base, zero-length, complemented members) Join(P...) and Order(P...) must denote the same set of residues in the same order of first occurrence, on the same strands, as the concatenation of the members. non-trivial: a list location, a partial end, or a string that is not a printed value; distinct: canonical case text. Every harness-written location text is also read from the location column of a GenBank record: on one line / continued behind each comma, LF / CRLF, the record delivered whole / byte by byte / with a 4096-byte read boundary at every offset of the text; each spelling must denote what the text denotes. The text stands in the first or in a later feature of the table. Member lists end in runs of complemented members (also behind joins); Join of one literal join prints like Join of its members. A quarter of the harness-written 3'-partial ranges use the legacy spelling a..b> inside the expression."
 }
 func (c06) RequiredBuckets(tier string) []string {
 	out := []string{"value:roundtrip", "string:accepted", "string:rejected", "string:legacy-gt", "string:mutated", "string:random", "reduce:join", "reduce:order",
@@ -497,6 +497,7 @@ type c06Node struct {
 	kind   string // point | between | range | ambiguous | complement | join | order
 	a, b   int
 	p5, p3 bool
+	legacy bool // a 3' marker spelled behind the number (1..5>), as older files have it
 	kids   []*c06Node
 }
 
@@ -514,6 +515,9 @@ func (n *c06Node) text() string {
 			s += "<"
 		}
 		s += fmt.Sprintf("%d..", n.a+1)
+		if n.p3 && n.legacy {
+			return s + fmt.Sprint(n.b) + ">"
+		}
 		if n.p3 {
 			s += ">"
 		}
@@ -587,7 +591,7 @@ func c06GenNode(r *rand.Rand) *c06Node {
 			}
 			lf = &c06Node{kind: "ambiguous", a: pos, b: pos + w}
 		default:
-			lf = &c06Node{kind: "range", a: pos, b: pos + w, p5: r.Intn(4) == 0, p3: r.Intn(4) == 0}
+			lf = &c06Node{kind: "range", a: pos, b: pos + w, p5: r.Intn(4) == 0, p3: r.Intn(4) == 0, legacy: r.Intn(4) == 0}
 		}
 		leaves = append(leaves, lf)
 		pos += w + 1 + r.Intn(4)
